@@ -1,5 +1,6 @@
 import BddVerif.Props.C11
 import BddVerif.Lemmas.AlgoEqUtilSpec
+import BddVerif.Lemmas.AlgoEq2SelectSpec
 #print axioms B.Props.C11.none_on_false
 #print axioms B.Props.C11.witness_sat
 #print axioms B.Props.C11.first_valuation_least
@@ -21,3 +22,15 @@ import BddVerif.Lemmas.AlgoEqUtilSpec
 #print axioms B.AlgoEqUtil.Bdd_is_valuation_spec
 #print axioms B.AlgoEqUtil.Bdd_is_clause_eq_model_driver
 #print axioms B.AlgoEqUtil.Bdd_is_valuation_eq_model_driver
+#print axioms B.AlgoEq2Sel.Bdd_first_valuation_spec
+#print axioms B.AlgoEq2Sel.Bdd_last_valuation_spec
+#print axioms B.AlgoEq2Sel.Bdd_first_clause_spec
+#print axioms B.AlgoEq2Sel.Bdd_last_clause_spec
+#print axioms B.AlgoEq2Sel.Bdd_most_positive_valuation_spec
+#print axioms B.AlgoEq2Sel.Bdd_most_negative_valuation_spec
+#print axioms B.AlgoEq2Sel.Bdd_most_fixed_clause_spec
+#print axioms B.AlgoEq2Sel.Bdd_most_free_clause_spec
+#print axioms B.AlgoEq2Sel.Bdd_necessary_clause_exact
+#print axioms B.AlgoEq2Sel.Bdd_random_valuation_spec
+#print axioms B.AlgoEq2Sel.Bdd_random_clause_spec
+#print axioms B.AlgoEq2Sel.selectors_eq_model_driver
